@@ -26,7 +26,8 @@ D_small0 == D_small
 T_dig == {T(AB, FALSE, 2, 2), T(AB, TRUE, 3, 2), T(AB, FALSE, 0, 1), T(A, TRUE, 0, 2)}
 D_dig == {D(AB, 2), D(AB, 3), D(ABC, 4)}
 
-V_v2all == {"PASS", "FAIL", "TIMEOUT", "SILENCE", "BYPASS", "RAISE"}
+\* NONE / FALSEV: a validator that answers None / False instead of a ValidResult (one written for the legacy front-end): not accepting
+V_v2all == {"PASS", "FAIL", "TIMEOUT", "SILENCE", "BYPASS", "RAISE", "NONE", "FALSEV"}
 V_v2two == {"PASS", "FAIL"}
 V_v2one == {"PASS"}
 V_legacy == {"T", "F"}
